@@ -42,6 +42,9 @@ LinRes(x, x1, x2, a, b) == <<a * x1[1] + b * x2[1] - x[1], a * x1[2] + b * x2[2]
 LinOK(x, x1, x2, a, b, tol) == LET r == LinRes(x, x1, x2, a, b) IN Abs(r[1]) <= 2000 /\ Abs(r[1] * 1000000 + r[2]) <= tol
 Linearity(obs, obs1, obs2, a, b, tol) == \A i \in 1..Len(obs) : \A c \in 1..3 : LinOK(obs[i][c], obs1[i][c], obs2[i][c], a, b, tol)
 
+\* Homogeneity (C05): the observation at excitation 10^d * e, logged in units of 10^d * (gross scale at e), equals the observation at e
+Homogeneity(obs, obsd, tol) == \A i \in 1..Len(obs) : \A c \in 1..3 : Close12(obs[i][c], obsd[i][c], tol)
+
 \* sum over sources equals the summed-up call
 RECURSIVE SumQ(_, _, _, _)
 SumQ(parts, i, c, n) == IF n = 0 THEN <<0, 0>> ELSE LET r == SumQ(parts, i, c, n - 1) IN <<r[1] + parts[n][i][c][1], r[2] + parts[n][i][c][2]>>
